@@ -356,7 +356,14 @@ def shrink_and_confirm(binary, prop, seed, tier, res):
     if p.returncode == 3:
         return path, False, None, "the recorded tape does not reproduce the failure (shrink step)"
     if p.returncode != 0:
-        return path, False, None, "shrinker failed: " + p.stderr.decode(errors="replace")[-1500:]
+        etxt = p.stderr.decode(errors="replace")
+        if "panic:" in etxt or "fatal error:" in etxt or p.returncode == 66:
+            # a candidate tape made the shrinker's own process die (a shorter program can reach a crash
+            # the recorded one only grazed): the recorded tape is kept as it is and confirmed below
+            with open(path, "w") as f:
+                json.dump(rf, f)
+        else:
+            return path, False, None, "shrinker failed: " + etxt[-1500:]
     p = subprocess.run([binary, "-replay", path] + cpu, stdout=subprocess.PIPE, stderr=subprocess.PIPE, env=env, timeout=1800)
     if dead:
         # the violation is the death / stall of the process itself: it must recur in a fresh process
